@@ -2,17 +2,51 @@
 """Generates MANIFEST.json from the table below (keep it current; run after every change)."""
 import json, subprocess
 
+LIFE = "explicit-state BFS over operation histories of the real regions (state = history, replay on fresh objects, state matching on the complete Debug/serde rendering) + deviation-bounded long runs; both build profiles"
 CLAIMED = {
+    "C01": dict(technique=LIFE + "; every catalogue entry x large value alphabet x every admissible input form x contexts of <=1/2 earlier pushes",
+        text="Every value of the large alphabet in every input form the type checker admits, pushed first / after one or two earlier pushes, on ~60 region compositions; the read item is checked through every accessor (len, is_empty, get, iter, into_iter, into_owned, Debug, UTF-8 validity).",
+        note="Coded regions are explored in generation 0 here; their contract after merge_regions is C06/C07. Zero-sized-element entries run without state matching on a reduced alphabet.", ref="DESIGN.md §4 C01"),
+    "C02": dict(technique=LIFE + "; ops push/reserve_items/reserve_regions/clear, all issued indices re-read after every step",
+        text="All interleavings up to the depth bound plus every placement of <=1/2 deviations in long default runs; after every operation every index issued since the last clear is re-read against the value model.",
+        note="Capacities are not part of the state fingerprint: histories that differ only in reserved capacity are merged; long runs (no state matching) cover growth/reallocation.", ref="DESIGN.md §4 C02"),
+    "C04": dict(technique=LIFE + " on the string-bearing compositions with clear/clone/clone_from/serde/merge replacement ops; plus a finite syntactic audit of src/**/*.rs for the program-text half",
+        text="Dynamic half: every &str reachable through index/get/iteration is validated with str::from_utf8 and compared byte-for-byte with the model string after every step. Program-text half: exhaustive enumeration of every unsafe token, every *unchecked* identifier, every impl Push<_> for StringRegion, blanket Push impls and writes to StringRegion.inner (an audit, not model checking; reported separately in the evidence).",
+        note="The audit is syntactic (comment/string-stripped token scan); it trusts rustc's privacy rules for the private field.", ref="DESIGN.md §4 C04"),
     "C05": dict(
         technique="explicit-state BFS over push/extend/clear/reserve histories of the real index containers with state matching + deviation-bounded long runs, against a Vec<usize> model and a u128 reference stride acceptor; both build profiles",
         text="Every history up to the stated depth over a transition-covering absolute + state-relative alphabet, and every placement of <=2 deviations in long strided/saturated/u32-crossing runs, executed on the real Stride, IndexList, IndexOptimized and Vec<usize>; after every step len/is_empty/index(i)/iter/cloned iter are compared with the pushed sequence and Stride::push verdicts with the documented pattern.",
         note="Alphabet and bounds as reported in the evidence; values outside the alphabet are not covered. The reference acceptor is 15 lines of u128 arithmetic.",
         ref="DESIGN.md §4 C05"),
+    "C06": dict(technique="explicit-state BFS per frequency profile on the real HuffmanContainer (build source through the API, merge_regions, then item pushes in 4 input forms / merge-from-self / clear), exact bounded decode of all issued items after every step; code lengths measured through the API and compared with a textbook optimum; both build profiles",
+        text="Profiles: all count vectors {1,2,3}^n n<=4, Fibonacci-skewed (codes to 23 bits), 257/300/600 u16 symbols, empty, single symbol. Oracle: exact decode, contiguous bit ranges with hi-lo = sum of code lengths, >=1 bit per symbol, Kraft equality, total bits = optimum, out-of-statistics symbols refused by panic.",
+        note="After a refused push the branch ends (the property does not require a usable container afterwards). Coverage table of (start bit, end bit, whole bytes) is in the evidence tags.", ref="DESIGN.md §4 C06"),
+    "C07": dict(technique="explicit-state BFS on a pool of up to three real CodecRegion<DictionaryCodec> (push over a fixed + dictionary-relative alphabet, merge_regions over every subset, clear, switch), exhaustive first-byte sweep, scripted >1024-string seeds; both build profiles",
+        text="Oracle: a push may be refused only if the string is not a dictionary entry and its first byte is a tag bound to an entry (read through the verif hook); every accepted push reads back exactly after every later operation on every live region; a string with more than half of the sources' pushes (free tag available) occupies exactly one byte.",
+        note="The >1024-distinct-strings scenarios are scripted seed states (labelled so), explored exhaustively only for 1-3 further steps.", ref="DESIGN.md §4 C07"),
+    "C08": dict(technique=LIFE + "; a Default twin is created at every clear and driven in lock-step",
+        text="For every (history before clear, history after clear) up to the bound: indices returned after the clear equal those of the fresh twin and both read the model values.",
+        note="Capacities are deliberately not compared.", ref="DESIGN.md §4 C08"),
+    "C10": dict(technique=LIFE + "; twin never sees reserve_* calls and is Default after every merge_regions",
+        text="reserve_items (every form, three batches), reserve_regions (three scripted sources), merge_regions over five source sets interleaved with pushes and clears; indices and reads compared with the never-reserving / default twin after every step.",
+        note="Coded regions take part without merge (C06/C07 cover their merges). FlatStack::reserve/with_capacity/merge_capacity are covered by the FlatStack machine when it exists.", ref="DESIGN.md §4 C10"),
+    "C12": dict(technique=LIFE + " on consecutive-pair, columns and vector regions with a push counter oracle",
+        text="The k-th push since creation/clear/merge_regions returns k, and index k reads the k-th value with exactly its own length and cells (rows 0..3 wide in every order), for each offset container.", note="", ref="DESIGN.md §4 C12"),
+    "C13": dict(technique=LIFE + " with a per-state oracle probing every position 0..len+2 of every issued item in both representations",
+        text="Every state reachable by <=3/4 pushes of items of length 0..3 on all slice/columns compositions; get(i) must equal the model for i < len and panic for i >= len, region-backed and borrowed-from-owned.",
+        note="FlatStack::get is covered by the FlatStack machine (C03).", ref="DESIGN.md §4 C13"),
+    "C14": dict(technique=LIFE + " with a per-state oracle for the IntoOwned laws; region-to-region copies through the read-item input forms",
+        text="For every issued item x in every state: into_owned(x) = v, borrow_as(&o) reads like x, reborrow(x) reads like x, clone_onto(x, t) = v for every t of the alphabet (shorter, longer, other variant), from both representations; pushing x or borrow_as(&o) into another region is a regular input form (read_item / borrowed_item).", note="", ref="DESIGN.md §4 C14"),
+    "C16": dict(technique=LIFE + "; twin := serde_json round trip at an arbitrary point, then lock-step; index containers through their own machine",
+        text="Debug renderings of original and copy must be identical right after the round trip, re-serialisation byte-identical, and afterwards the same continuation yields the same indices, reads and renderings.",
+        note="Non-finite floats are excluded (JSON cannot carry them: a limit of the text format, not of flatcontainer). Zero-sized-element regions are excluded (2^32 units would be serialised one by one).", ref="DESIGN.md §4 C16"),
     "C19": dict(
         technique="explicit-state BFS + deviation-bounded long runs on the real IndexOptimized/IndexList, byte cost from heap_size compared with the documented rule after every step",
         text="Same exploration as C05; oracle: used bytes equal 'stride-matching prefix free, then 4 B/entry until the first value > u32::MAX, 8 B/entry after', capacity 0 if never spilled.",
-        note="The documented rule is transcribed from the README/type docs into list_cost()/stride_prefix_len().",
+        note="The documented rule is transcribed from the README/type docs into list_cost()/stride_prefix_len(). FlatStack part pending the FlatStack machine.",
         ref="DESIGN.md §4 C19"),
+    "C20": dict(technique=LIFE + "; twin fed the canonical form of every value",
+        text="Every value x every input form (incl. forms of children reached through nesting, read items from another region, owned-borrowed read items) mixed arbitrarily up to the depth bound: equal indices, equal per-storage used bytes, equal complete renderings.", note="", ref="DESIGN.md §4 C20"),
 }
 
 PENDING_REASON = "check under construction in this session (see DESIGN.md §9 for the order); not claimed until its machine exists"
